@@ -25,6 +25,7 @@ ASSUMPTIONS = ["Python integer operators and ctypes.c_uintN have their documente
                "values of deep trees and spacing invariance are runtime relations and are not decided"]
 
 REF_RANK = {"~": 0, "*": 1, "+": 2, "-": 2, "<<": 3, ">>": 3, "&": 4, "|": 5}
+STATEMENT_OPERATORS = {"+", "-", "&", "*", "<<", ">>"}  # REF_RANK operators lex_initial accepted at the confirmed commit (read)
 REF_OPS = {"+": ast.Add, "-": ast.Sub, "*": ast.Mult, "&": ast.BitAnd, "|": ast.BitOr, ">>": ast.RShift, "<<": ast.LShift}
 
 
@@ -610,6 +611,43 @@ def r5_single_evaluator(ctx: Ctx) -> None:
     for op in sorted(REF_RANK):
         ctx.check(op in emitted, f"lex_expression:emits {op}", "the operand-context lexer produces this operator")
     ctx.note(f"operators lexed in operand context: {sorted(emitted)}; those without an evaluation arm raise (R3 unknown-binary)")
+    # statement context (`name = expr`, data directives, loop bounds, conditions): the arithmetic operators it accepted when the tree was
+    # confirmed must still come out as one OPERATOR token each; a two-character operator has to be looked for before any arm that
+    # takes its first character alone
+    li = ctx.repo.func(SSTATES, "lex_initial")
+    chains = [st for st in li.node.body if isinstance(st, ast.If)]
+    if len(chains) != 1:
+        raise AnalysisError("lex_initial: expected one top-level if-chain")
+    arms, _ = if_chain(chains[0])
+    first_seen: dict[str, int] = {}
+    op_arm: dict[str, int] = {}
+    for i, (test, body) in enumerate(arms):
+        emits_op = any(unparse(c) == "s.emit(TokenType.OPERATOR)" for b in body for c in calls_in(b))
+        for c in calls_in(test):
+            if call_name(c) == "s.accept" and c.args:
+                chars = const_str(c.args[0])
+                if chars is None:
+                    raise AnalysisError(f"lex_initial: non-literal character set `{unparse(c)[:40]}`")
+                for ch in chars:
+                    first_seen.setdefault(ch, i)
+                    if emits_op:
+                        op_arm.setdefault(ch, i)
+            elif call_name(c) == "s.accept_prefix" and c.args:
+                pre = const_str(c.args[0])
+                if pre is None:
+                    raise AnalysisError(f"lex_initial: non-literal prefix `{unparse(c)[:40]}`")
+                if len(pre) == 1:
+                    first_seen.setdefault(pre, i)
+                if emits_op:
+                    op_arm.setdefault(pre, i)
+    for op in sorted(STATEMENT_OPERATORS):
+        ctx.count("statement_operators")
+        if not ctx.check(op in op_arm, f"lex_initial:emits {op}", "the statement-context lexer produces this operator as one token (the operand context does; "
+                         "the same expression text must be accepted by both)", fact=True):
+            continue
+        if len(op) == 2:
+            ctx.check(first_seen.get(op[0], len(arms)) > op_arm[op] or first_seen.get(op[0]) == op_arm[op], f"lex_initial:{op} before {op[0]}",
+                      f"`{op}` is looked for before an arm consumes `{op[0]}` alone", fact=True)
 
 
 
